@@ -16,14 +16,14 @@ RULE = (
     "exhaustive: every script of bounded length over {subscribe / unsubscribe of two endpoints, of one endpoint to the cyclic eventgroup, notify_once, value update} x {one loop iteration later without idle point, +0.6 s}, directly and through the wire; random: cases = a SimpleService with eventgroup 1 (explicit notifications, 1..4 events) and eventgroup 2 (cyclic, interval "
     "0.5 s, 1..2 events) and scripts of client_subscribed / client_unsubscribed for 3 endpoints (IPv4 and IPv6; also "
     "subscriptions naming 0 or 2 endpoints or an unknown eventgroup, repeated subscribes and unsubscribes of endpoints that "
-    "are not subscribed; the same scripts also through the wire, as Subscribe / StopSubscribe datagrams to a discovery endpoint on which the service is announced), value updates, notify_once for any subset of events, and waits across cyclic rounds; steps at "
+    "are not subscribed; the same scripts also through the wire, as Subscribe / StopSubscribe datagrams to a discovery endpoint on which the service is announced), value updates by item assignment and by setting `values` to a new dict (same events or one more), notify_once for any subset of events, and waits across cyclic rounds; steps at "
     "distinct instants, inside one iteration, or a few loop iterations after the previous step without an idle point (while a round is suspended in its address look-ups). Every datagram is decoded independently. non-trivial = >= 2 endpoints with "
     "different subscription intervals and a notification round between, or a refused subscription, or a cyclic round with "
     "a changed value; distinct = distinct case JSON"
 )
 ASSUMPTIONS = [
     "endpoint-level set semantics: a subscribe adds the endpoint, an unsubscribe removes it if present (an unsubscribe of an endpoint that is not subscribed changes nothing)",
-    "steps sharing one loop iteration with an explicit round: the membership / value at issue time or at send time (one iteration later) are both accepted",
+    "steps sharing one loop iteration with an explicit round: the membership at issue time or at send time (one iteration later) are both accepted; the payload of every notification must be the event's value at the moment the datagram is handed to the transport",
     "the schedule of cyclic rounds is not fixed by the statement: every cyclic round must be complete and go to exactly the current subscribers, and a subscriber that stays longer than two intervals must see a round",
 ]
 BUDGET = {"quick": {"examples": 8000, "shrink": 300}, "thorough": {"examples": 300000, "shrink": 2000}}
@@ -36,8 +36,11 @@ when_st = st.one_of(st.tuples(st.just("d"), st.sampled_from([0.001, 0.01, 0.1, 0
 
 @st.composite
 def _step(draw):
-    op = draw(st.sampled_from(["sub", "sub", "sub", "unsub", "unsub", "notify", "notify", "set", "badsub", "wait"]))
+    op = draw(st.sampled_from(["sub", "sub", "sub", "unsub", "unsub", "notify", "notify", "set", "set", "rebind", "badsub", "wait"]))
     s = {"op": op, "when": draw(when_st)}
+    if op == "rebind":
+        # the eventgroup's `values` attribute is set to a new dict: same events or one event more
+        s.update(eg=draw(st.sampled_from([1, 2, 2])), how=draw(st.sampled_from(["same", "add", "add"])), val=draw(st.binary(max_size=4)).hex())
     if op in ("sub", "unsub"):
         s.update(ep=draw(st.integers(0, 2)), eg=draw(st.sampled_from([1, 1, 2])))
     elif op == "notify":
@@ -122,7 +125,9 @@ def run_case(case):
     feats = collections.Counter()
     with Sim() as sim:
         svc = _Svc(1)
-        tr = FakeTransport(sim, ("10.0.0.1", 30500))
+        values = {}
+        snaps = []   # values current at the moment each datagram is handed to the transport
+        tr = FakeTransport(sim, ("10.0.0.1", 30500), on_send=lambda t_, d_, b_: snaps.append(dict(values)))
         svc.transport = tr
         eg1 = service.SimpleEventgroup(svc, id=1)
         eg2 = service.SimpleEventgroup(svc, id=2, interval=INTERVAL)
@@ -130,7 +135,6 @@ def run_case(case):
         svc.register_eventgroup(eg2)
         groups = {1: eg1, 2: eg2}
         events = {1: [0x10 + i for i in range(n1)], 2: [0x20 + i for i in range(n2)]}
-        values = {}
         for g, evs in events.items():
             for ev in evs:
                 values[ev] = bytes([ev])
@@ -231,6 +235,24 @@ def run_case(case):
                 group_changes["history"][ev].append(values[ev])
                 groups[g].values[ev] = values[ev]
                 group_changes["values"].add(ev)
+            elif op == "rebind":
+                g = s.get("eg", 1) if s.get("eg", 1) in (1, 2) else 1
+                how = s.get("how", "same")
+                if how == "add" and len(events[g]) < 5:
+                    ev = 0x10 * g + len(events[g])
+                    events[g].append(ev)
+                    values[ev] = bytes.fromhex(s.get("val", "")) + bytes([ev])
+                    feats["event-added"] += 1
+                    # a subscription made earlier in this very iteration may be handled after this (a Subscribe datagram's
+                    # entries are dispatched one iteration later): its initial notifications may cover the new event
+                    group_changes.setdefault("history", {}).setdefault(ev, [values[ev]])
+                    for g_, ep_ in list(group_changes["members"]):
+                        if g_ == g:
+                            group_changes.setdefault("initial_may", []).append((ep_, ev))
+                for ev in events[g]:
+                    group_changes["values"].add(ev)
+                    group_changes.setdefault("history", {}).setdefault(ev, [values[ev]])
+                groups[g].values = {ev: values[ev] for ev in events[g]}
             elif op == "notify":
                 evs = [ev for i, ev in enumerate(events[1]) if s.get("mask", 0) & (1 << i)]
                 group_changes.setdefault("rounds", []).append((set(subs[1]), list(evs), dict(values)))
@@ -262,12 +284,21 @@ def run_case(case):
                         expect("may", ep, ev, v_)
                 else:
                     expect("must", ep, ev, val)
+            for ep, ev in group_changes.get("initial_may", []):
+                for v_ in set(group_changes.get("history", {}).get(ev, [])) | {values[ev]}:
+                    expect("may", ep, ev, v_)
             new = tr.sent[seen[0]:]
+            seen_before = seen[0]
             seen[0] = len(tr.sent)
             got = collections.Counter()
             cyc = collections.defaultdict(collections.Counter)   # time -> (dest, event, payload) for eventgroup 2 beyond initial
-            for t, dest, data in new:
+            for j_, (t, dest, data) in enumerate(new, start=seen_before):
                 msgs = wire.split_datagram(data)
+                for m in msgs:
+                    ev_ = m["method"] & 0x7FFF
+                    cur = snaps[j_].get(ev_)
+                    require(cur is not None and m["payload"] == cur, "C17.stale-value",
+                            lambda: f"notification of event {ev_:#x} handed to the transport at t={t:.6f} for {dest} carries {m['payload'].hex()!r}, the event's value at that moment is {cur.hex() if cur is not None else None!r}")
                 require(msgs and sum(16 + len(m["payload"]) for m in msgs) == len(data), "C17.datagram-format", lambda: f"undecodable notification datagram {data[:40].hex()}")
                 for m in msgs:
                     counts[dest] += 1
